@@ -1,4 +1,5 @@
 import SeqVerif.Model.SearchDocsTotals
+import SeqVerif.Model.StoreSearch
 import SeqVerif.Extracted.C05
 /-!
 # C05 - results are independent of how documents are split over fractions and shards
@@ -180,6 +181,29 @@ theorem c05_partition_invariant_total_hist (c : Cfg) (fs : List Frac) (from_ to_
   · simp [fracSearch, hhi, histGet, get_histOf]
   · simp [fracSearch, hhi, histGet, Hist.get]
 
+/-! ## composition with C02: the per-fraction oracle discharged, and the store-level statement -/
+
+/-- **The `fracSearch` oracle is C02's `IndexSearch`.**  For every well-formed fraction index (C02's hypotheses),
+query tree, window, order and limit, what `EvalTree.search` (the model of `getLIDsBorders ; buildEvalTree ;
+iterateEvalTree`, proved equal to `Spec.search` in `c02_search_eq_spec`) returns is - under the key encoding of IDs -
+exactly the answer `fracSearch` specifies for the fraction's matching documents (requests without histogram). -/
+theorem c05_fracSearch_is_c02 (c : Cfg) (hhi : c.hi = 0) (f : FracIdx) (q : Spec.Query) (from_ to_ limit : Nat)
+    (hok : f.OK from_) :
+    qprOfResult (EvalTree.search f.idx q from_ to_ (!c.desc) limit c.withTotal) = fracSearch c (f.toFrac q from_ to_) limit :=
+  fracSearch_discharged c hhi f q from_ to_ limit hok
+
+/-- **C05 at store level.**  `SearchDocs` over ANY list of well-formed fraction indexes (any number, any overlap of
+their ranges, any `FractionsPerIteration`, both orders, any limit) returns the IDs of `Spec.search` over the union of
+the documents the indexes store; and its total when no matching document is stored twice. -/
+theorem c05_store_eq_spec (c : Cfg) (fs : List FracIdx) (q : Spec.Query) (from_ to_ L : Nat)
+    (hok : ∀ f, f ∈ fs → f.OK from_)
+    (hmax : c.maxHits = 0 ∨ (filterInRange (fs.map (·.toFrac q from_ to_)) from_ to_).length ≤ c.maxHits) :
+    ∃ r, searchDocs c (fs.map (·.toFrac q from_ to_)) from_ to_ L = some r ∧
+      r.ids = (Spec.search (fs.flatMap (fun f => EvalTree.docsOf f.idx)) q from_ to_ (!c.desc) L c.withTotal).ids.map keyOf ∧
+      ((docsOf (fs.map (·.toFrac q from_ to_))).Nodup →
+        r.total = (Spec.search (fs.flatMap (fun f => EvalTree.docsOf f.idx)) q from_ to_ (!c.desc) L c.withTotal).total) :=
+  storeSearch_eq_spec c fs q from_ to_ L hok hmax
+
 /-- `seq.Less` on `{MID,RID}` is the order of the single number used by the model -/
 theorem c05_key_order (m1 r1 m2 r2 : Nat) (h1 : r1 < R) (h2 : r2 < R) :
     key m1 r1 < key m2 r2 ↔ idLess m1 r1 m2 r2 = true :=
@@ -261,6 +285,10 @@ example :
       [⟨2, 20, 40, [key 40 0, key 20 1]⟩, ⟨1, 20, 20, [key 20 1]⟩] 0 100 1).map (fun q => (q.total, histGet q.hist 20))
       = some (3, 2) := by
   decide +kernel
+
+/-- a well-formed fraction index for `c05_store_eq_spec`: IDs 7:1, 7:0, 5:2 (descending), token a:x on LIDs 1 and 3 -/
+example : (⟨⟨[⟨7, 1⟩, ⟨7, 0⟩, ⟨5, 2⟩], [⟨[97], [120], [1, 3]⟩]⟩, 5, 7⟩ : FracIdx).OK 0 := by
+  refine ⟨⟨?_, ?_⟩, ?_, ?_, Or.inr ?_, ?_⟩ <;> decide
 
 /-- pages (0,2), (2,1), (3,3) of a 5-element list -/
 example : walkPages [50, 40, 30, 20, 10] 0 [2, 1, 3] = [50, 40, 30, 20, 10] := by decide
